@@ -326,7 +326,7 @@ impl Spec {
 fn singles_spectrum<'a>(c: &Case, cache: &'a mut Spec) -> Option<&'a JointSpectrum> {
   if cache.sps.is_none() || cache.sps_gen != c.gen {
     let s = c.spdc.clone();
-    cache.sps = guard(move || s.joint_spectrum(Integrator::Simpson { divs: 4 }));
+    cache.sps = guard(move || s.joint_spectrum(Integrator::Simpson { divs: 6 }));
     cache.sps_gen = c.gen;
   }
   cache.sps.as_ref()
@@ -437,9 +437,9 @@ fn observe(mode: &str, c: &Case, cache: &mut Spec) -> Obs {
           for (k, (a, b)) in prs.iter().enumerate() {
             num(&mut o, &format!("swapped/phasematch/{}", k), || cxv(phasematch_fiber_coupling(w(*b), w(*a), &sw, integ).value_unsafe));
           }
-          num(&mut o, "swapped/counts_singles_signal", || vec![sw.counts_singles_signal(FrequencySpace::new((w(c.a.i0), w(c.a.i1), c.a.ni), (w(c.a.s0), w(c.a.s1), c.a.ns)), Integrator::Simpson { divs: 4 }).value_unsafe]);
+          num(&mut o, "swapped/counts_singles_signal", || vec![sw.counts_singles_signal(FrequencySpace::new((w(c.a.i0), w(c.a.i1), c.a.ni), (w(c.a.s0), w(c.a.s1), c.a.ns)), Integrator::Simpson { divs: 6 }).value_unsafe]);
         }
-        num(&mut o, "counts_singles_idler", || vec![s.counts_singles_idler(grid, Integrator::Simpson { divs: 4 }).value_unsafe]);
+        num(&mut o, "counts_singles_idler", || vec![s.counts_singles_idler(grid, Integrator::Simpson { divs: 6 }).value_unsafe]);
       }
     }
     "c07" | "c08" | "c20" | "c14" => {
@@ -452,7 +452,7 @@ fn observe(mode: &str, c: &Case, cache: &mut Spec) -> Obs {
           num(&mut o, &format!("jsa_raw/{}", k), || cxv(jsa_raw(w(*a), w(*b), s, integ)));
         }
       }
-      let single = Integrator::Simpson { divs: 4 };
+      let single = Integrator::Simpson { divs: 6 };
       if let Some(sp) = spectrum(c, cache) {
         for (k, (a, b)) in prs.iter().enumerate() {
           num(&mut o, &format!("jsa/{}", k), || cxv(sp.jsa(w(*a), w(*b))));
